@@ -364,15 +364,24 @@ def rule_fastpath(cx, rec, family, prop_rule_elig, prop_rule_pad):
 
 # ---------------------------------------------------------------------------------------------------
 def refresh(f):
-    """the same facts with every assumed condition re-simplified under all of them (γ inside earlier facts
-    resolve once later facts decide their conditions)"""
+    """the same facts with every assumed condition re-simplified under the others (γ inside earlier facts
+    resolve once later facts decide their conditions).  Equalities are simplified under the non-equality facts
+    only - under themselves they would vanish."""
     g = Facts()
     g.cong_atom = getattr(f, "cong_atom", None)
+    h = Facts()   # the inequalities / disequalities / congruences alone
+    h.cong_atom = g.cong_atom
+    for c in f.raw:
+        if c[0] == "congruent":
+            h.add_cong(c[1], c[2])
+        elif not (c[0] == "cmp" and c[1] == "eq"):
+            h.add(c)
     for c in f.raw:
         if c[0] == "congruent":
             g.add_cong(c[1], c[2])
         elif c[0] == "cmp" and c[1] == "eq":
-            g.add(c)  # an assumed equality is kept as it is (simplified under itself it would vanish)
+            c2 = simplify_cond(c, h)
+            g.add(c2 if c2 not in (TRUE,) else c)
         elif c[0] in ("cmp", "not", "and"):
             c2 = simplify_cond(c, f)
             g.add(c2 if c2 != TRUE else c)
